@@ -138,8 +138,9 @@ class Loop(asyncio.AbstractEventLoop):
         prev = sim.current
         sim.current = self.pid
         asyncio.events._set_running_loop(self)
-        if sim.no_log is not None:
-            logging.disable(logging.CRITICAL if sim.no_log[self.pid] else logging.NOTSET)
+        no_log = getattr(sim, 'no_log', None)   # (some checks drive a Loop with a minimal stand-in for the Sim)
+        if no_log is not None:
+            logging.disable(logging.CRITICAL if no_log[self.pid] else logging.NOTSET)
         try:
             for _ in range(n):
                 if not self._ready:
@@ -150,7 +151,7 @@ class Loop(asyncio.AbstractEventLoop):
         finally:
             asyncio.events._set_running_loop(None)
             sim.current = prev
-            if sim.no_log is not None:
+            if no_log is not None:
                 logging.disable(logging.CRITICAL)
         return n
 
